@@ -155,10 +155,67 @@ class C09(Check):
                 for svd in SVDS:
                     yield dict(base, alg="tr", rank=list(rk) + [rk[0]], mode=mode, svd=svd)
 
+        # ---- int64-dtype input for the integer-valued family (truncated_svd; full rank space of TT and TR, HOSVD+HOOI for Tucker)
+        if fam == "integer":
+            for rk in R.tt_rank_space(shape):
+                yield dict(base, alg="tt", rank=rk, svd="truncated_svd", dtype="int64")
+            for rk in itertools.product(range(1, B + 1), repeat=d):
+                for mode in range(d):
+                    yield dict(base, alg="tr", rank=list(rk) + [rk[0]], mode=mode, svd="truncated_svd", dtype="int64")
+            for rk in itertools.product(*[range(1, n + 2) for n in shape]):
+                yield dict(base, alg="tucker", rank=list(rk), svd="truncated_svd", iters=1, dtype="int64")
+        # ---- two-call histories sharing the rank list object (first call on a smaller tensor of the same order)
+        if fam in ("generic", "integer") and max(shape) >= 3:
+            small = [2] * d
+            full_tt = [1] + [int(min(np.prod(shape[:k]), np.prod(shape[k:]))) for k in range(1, d)] + [1]
+            yield dict(base, alg="tt", rank=full_tt, svd="truncated_svd", prelude=small)
+            yield dict(base, alg="tt", rank=[1] + [max(2, r - 1) for r in full_tt[1:-1]] + [1], svd="truncated_svd", prelude=small)
+            yield dict(base, alg="tucker", rank=list(shape), svd="truncated_svd", iters=1, prelude=small)
+            if d % 2 == 0:
+                n = d // 2
+                merged = [a * b for a, b in zip(shape[:n], shape[n:])]
+                full_m = [1] + [int(min(np.prod(merged[:k]), np.prod(merged[k:]))) for k in range(1, n)] + [1]
+                yield dict(base, alg="ttm", rank=full_m, svd="truncated_svd", prelude=small)
+            for mode in range(d):
+                rk = [min(B, 3)] * d
+                yield dict(base, alg="tr", rank=rk + [rk[0]], mode=mode, svd="truncated_svd", prelude=small)
+
     # ---------------------------------------------------------------------------------- oracle
     def run_case(self, case, ctx):
         alg = case["alg"]
-        getattr(self, "_run_" + alg)(case, ctx)
+        self._shared = None
+        if case.get("prelude"):
+            # history of two calls sharing ONE caller-owned rank list: the first call decomposes a smaller tensor (its ranks get
+            # clamped), the second - the one judged below - must still honour the ranks as requested
+            from tensorly import decomposition as D
+
+            self._shared = list(case["rank"])
+            small = info(case["prelude"], "generic", case.get("seed", 0), ttm=(alg == "ttm"))
+            try:
+                if alg == "tt":
+                    D.tensor_train(small.X.copy(), rank=self._shared, svd=case["svd"])
+                elif alg == "ttm":
+                    D.tensor_train_matrix(small.X.copy(), rank=self._shared, svd=case["svd"])
+                elif alg == "tr":
+                    D.tensor_ring(small.X.copy(), rank=self._shared, mode=case["mode"], svd=case["svd"])
+                elif alg == "tucker":
+                    D.tucker(small.X.copy(), rank=self._shared, svd=case["svd"], n_iter_max=case["iters"], random_state=0)
+            except Exception as e:
+                ctx.count(f"guarded_out:prelude-call-raises:{type(e).__name__}")
+                self._shared = None
+                return
+        try:
+            getattr(self, "_run_" + alg)(case, ctx)
+        finally:
+            self._shared = None
+
+    def _rank_arg(self, case, rank):
+        return self._shared if getattr(self, "_shared", None) is not None else list(rank)
+
+    @staticmethod
+    def _x(case, T):
+        # integer-valued data is also fed as an integer-dtype array (the decomposition must not truncate its factors to integers)
+        return T.X.astype(np.int64) if case.get("dtype") == "int64" else T.X.copy()
 
     @staticmethod
     def _desc(case, **kw):
@@ -217,7 +274,7 @@ class C09(Check):
         cls = f"{svd}:{case['fam']}"
         ctx.count("calls:tucker")
         try:
-            res = tucker(T.X.copy(), rank=list(rank), svd=svd, n_iter_max=case["iters"], random_state=0)
+            res = tucker(self._x(case, T), rank=self._rank_arg(case, rank), svd=svd, n_iter_max=case["iters"], random_state=0)
             core, factors = res
             core = np.asarray(core)
             factors = [np.asarray(f) for f in factors]
@@ -248,7 +305,7 @@ class C09(Check):
         cls = f"{svd}:{case['fam']}"
         ctx.count("calls:tensor_train")
         try:
-            res = tensor_train(T.X.copy(), rank=list(rank), svd=svd)
+            res = tensor_train(self._x(case, T), rank=self._rank_arg(case, rank), svd=svd)
             cores = [np.asarray(f) for f in res.factors]
         except Exception as e:
             ctx.outcome("tt:exception")
@@ -279,7 +336,7 @@ class C09(Check):
         n = len(T.shape) // 2
         ctx.count("calls:tensor_train_matrix")
         try:
-            res = tensor_train_matrix(T.X.copy(), rank=list(rank), svd=svd)
+            res = tensor_train_matrix(self._x(case, T), rank=self._rank_arg(case, rank), svd=svd)
             cores = [np.asarray(f) for f in res.factors]
         except Exception as e:
             ctx.outcome("ttm:exception")
@@ -314,7 +371,7 @@ class C09(Check):
         status = tr_sufficient(T, rank, mode)
         ctx.count("calls:tensor_ring")
         try:
-            res = tensor_ring(T.X.copy(), rank=list(rank), mode=mode, svd=svd)
+            res = tensor_ring(self._x(case, T), rank=self._rank_arg(case, rank), mode=mode, svd=svd)
             cores = [np.asarray(f) for f in res.factors]
         except ValueError as e:
             if status == "inadmissible":
